@@ -91,7 +91,7 @@ class PITDilationMasker(nn.Module):
         # 100010001
         # etc
         for i in range(self._gamma_len):
-            c_gamma_i = [1.0 if j % (2**i) == 0 else 0.0 for j in range(self.rf)]
+            c_gamma_i = [1.0 if (self.rf - 1 - j) % (2**i) == 0 else 0.0 for j in range(self.rf)]
             c_gamma.append(c_gamma_i)
         c_gamma = torch.tensor(c_gamma, dtype=torch.float32)
         # transpose & flip
